@@ -9,6 +9,8 @@
 (*    "w"  inserted whitespace / line break (source only, not a tag)        *)
 (*    "oX" / "cX"  opening / closing tag X in {i, b, p}                     *)
 (*    "sc" a self-closing element (<br/>): a tag, balanced on its own       *)
+(*    "d"  plain text the source LACKS (n characters of the plain text,     *)
+(*         none of the target: a deletion of the diff)                      *)
 (* Offsets are character offsets; annotation spans are cut at token         *)
 (* boundaries (a "t" token of length 1 gives character granularity).        *)
 (* With HasSource the plain text is the concatenation of the "t" tokens and *)
@@ -23,7 +25,9 @@ EXTENDS SpanUpdater, SequencesExt, FiniteSetsExt, TLC
 
 CONSTANTS Tol,           \* style-tag tolerance of maybe_balance_style_tags (10)
           EmptySpanClamp,\* TRUE: end := max(end, start) after translation (repaired code)
-          SkipReclip     \* TRUE: a style-tag repair reaching back before last_end is skipped (repaired)
+          SkipReclip,    \* TRUE: a style-tag repair reaching back before last_end is skipped (repaired)
+          EmptySourceFix \* TRUE: an EMPTY source text is a source text (repaired); FALSE: `if source_text and ...`
+                         \* treats it like None and annotates the plain text
 
 VARIABLES src,      \* target text as token sequence
           hasSrc,   \* a separate source text was given
@@ -39,18 +43,23 @@ IsClose(c) == c \in {"ci", "cb", "cp", "ca"}
 TagName(c) == CASE c \in {"oi", "ci"} -> "i" [] c \in {"ob", "cb"} -> "b"
                 [] c \in {"op", "cp"} -> "p" [] c \in {"oa", "ca"} -> "a" [] OTHER -> ""
 
-Off(j)  == LET F[m \in 0..Len(src)] == IF m = 0 THEN 0 ELSE F[m-1] + src[m].n IN F[j - 1]   \* start of token j
-TotalLen == LET F[m \in 0..Len(src)] == IF m = 0 THEN 0 ELSE F[m-1] + src[m].n IN F[Len(src)]
+SrcIgnored == ~EmptySourceFix /\ hasSrc /\ \A j \in DOMAIN src : src[j].c = "d"    \* original code, source_text = ""
+UseSrc == hasSrc /\ ~SrcIgnored
+TLen(t) == IF t.c = "d" /\ ~SrcIgnored THEN 0 ELSE t.n        \* length in the text the loop works on
+TargetLen == LET F[m \in 0..Len(src)] == IF m = 0 THEN 0 ELSE F[m-1] + (IF src[m].c = "d" THEN 0 ELSE src[m].n)
+             IN F[Len(src)]                                    \* length of the target the PROPERTY names
+Off(j)  == LET F[m \in 0..Len(src)] == IF m = 0 THEN 0 ELSE F[m-1] + TLen(src[m]) IN F[j - 1]   \* start of token j
+TotalLen == LET F[m \in 0..Len(src)] == IF m = 0 THEN 0 ELSE F[m-1] + TLen(src[m]) IN F[Len(src)]
 Bounds  == {Off(j) : j \in 1..Len(src)} \cup {TotalLen}
 (* tokens lying inside the character interval [a, b) *)
-Inside(a, b) == SelectSeq([j \in 1..Len(src) |-> j], LAMBDA j : a <= Off(j) /\ Off(j) + src[j].n <= b)
+Inside(a, b) == SelectSeq([j \in 1..Len(src) |-> j], LAMBDA j : (src[j].c # "d" \/ SrcIgnored) /\ a <= Off(j) /\ Off(j) + src[j].n <= b)
 Classes(a, b) == [x \in DOMAIN Inside(a, b) |-> src[Inside(a, b)[x]].c]
 
 (* plain text = the "t" tokens; script of the unique minimal diff plain -> source *)
-Script == [j \in 1..Len(src) |-> [op |-> IF src[j].c = "t" THEN "=" ELSE "+", n |-> src[j].n]]
+Script == [j \in 1..Len(src) |-> [op |-> IF src[j].c = "t" THEN "=" ELSE IF src[j].c = "d" THEN "-" ELSE "+", n |-> src[j].n]]
 PlainLen == LenBefore(Script)
 PlainBounds == {LET F[m \in 0..Len(src)] == IF m = 0 THEN 0
-                      ELSE F[m-1] + (IF src[m].c = "t" THEN src[m].n ELSE 0) IN F[j] : j \in 0..Len(src)}
+                      ELSE F[m-1] + (IF src[m].c \in {"t", "d"} THEN src[m].n ELSE 0) IN F[j] : j \in 0..Len(src)}
 
 (* utils.is_balanced_html on a span cut at token boundaries: no tag inside -> fast
    path; otherwise whole tags must nest properly (XML parse inside a <div>) *)
@@ -96,8 +105,8 @@ Slice(a, b) == IF a < b THEN <<<<"s", a, b>>>> ELSE <<>>          \* Python slic
 LoopStep ==
   /\ pc = "loop" /\ k <= Len(anns) /\ err = "none"
   /\ LET rs == Ranges(Script)
-         us == IF hasSrc THEN Upd(rs, anns[k][1], "right") ELSE <<anns[k][1], "none">>
-         ue == IF hasSrc THEN Upd(rs, anns[k][2], "left")  ELSE <<anns[k][2], "none">>
+         us == IF UseSrc THEN Upd(rs, anns[k][1], "right") ELSE <<anns[k][1], "none">>
+         ue == IF UseSrc THEN Upd(rs, anns[k][2], "left")  ELSE <<anns[k][2], "none">>
          s0 == us[1]
          e0 == IF EmptySpanClamp /\ ue[1] < s0 THEN s0 ELSE ue[1]
          s1 == IF s0 < lastEnd THEN lastEnd ELSE s0
@@ -139,7 +148,7 @@ NoRaise == err = "none"
 (* C09: at every step, what was emitted plus the rest of the text is the text *)
 Additive == err = "none" =>
     Chars(SItems, 1) \o (IF pc = "done" THEN <<>> ELSE [y \in 1..(TotalLen - lastEnd) |-> lastEnd + y - 1])
-       = Identity(TotalLen)
+       = Identity(TargetLen)
 (* C11: token-level rendering of out: annotation k becomes the element <a>..</a> *)
 RECURSIVE OutClasses(_, _)
 OutClasses(its, x) ==
